@@ -834,10 +834,11 @@ impl<F: Field> Assignment<F> for WitnessCollection<'_, F> {
             return Err(Error::not_enough_rows_available(self.k));
         }
 
+        // The instances are zero-padded (as the instance polynomials are): a usable row after
+        // the provided entries of an existing column holds zero.
         self.instances
             .get(column.index())
-            .and_then(|column| column.get(row))
-            .map(|v| Value::known(*v))
+            .map(|column| Value::known(column.get(row).copied().unwrap_or(F::ZERO)))
             .ok_or(Error::BoundsFailure)
     }
 
